@@ -568,7 +568,11 @@ def run(ctx):
         # AddressSanitizer lane (deciding here): a memory error of the interpreter on an accepted program is a failure
         # outside the ones the statement allows.
         from .. import sanitize
-        progs = [(c[0], {"main.ms": 'print "@@RUN@@"\n' + c[1]}, "main.ms") for c in CATALOGUE]
+        progs = []
+        for c in CATALOGUE:
+            files = dict(c[1]) if isinstance(c[1], dict) else {"main.ms": c[1]}
+            files["main.ms"] = 'print "@@RUN@@"\n' + files["main.ms"]
+            progs.append((c[0], files, "main.ms"))
         for i in range(1500):
             text, _, _ = tgen.gen(base + i)
             progs.append(("seed %d" % (base + i), {"main.ms": text}, "main.ms"))
